@@ -1331,7 +1331,7 @@ def main(chk):
         "interrogate prints warnings only at verbosity >= 2 (-v); the missing-file warning is checked for parse_file and "
         "for interrogate runs with -v",
     ]
-    ntrees = chk.pick(640, 12000)
+    ntrees = chk.pick(1600, 12000)
     cases = []
     for i in range(ntrees):
         sub = "%d.%d" % (chk.seed, i)
